@@ -51,6 +51,8 @@ type VC struct {
 	lemma    map[int]bool // assumption indices that are proved-elsewhere lemmas
 	lastType map[string]types.Type
 	oblNames map[string]int
+	boxedType map[string]types.Type // box ref term -> static type of the boxed value
+	boundNames []string
 	lastState map[string]*State // state right after the most recent call counted under a label
 	beforeState map[string]*State // state right before it
 	labels   map[string]bool // ghost call-history labels the contract under verification uses
@@ -97,8 +99,19 @@ func (vc *VC) declareUF(name, sig string) {
 
 // define introduces a named constant equal to t (keeps terms small).
 func (vc *VC) define(prefix, sort string, t Term) Term {
-	if len(t) < 40 || vc.inQuant > 0 {
+	if len(t) < 40 {
 		return t
+	}
+	if vc.inQuant > 0 {
+		// ground sub-terms may still be named outside the quantifier
+		for _, b := range vc.boundNames {
+			if strings.Contains(t, b) {
+				return t
+			}
+		}
+		if strings.Contains(t, "q!") || strings.Contains(t, "l!") || strings.Contains(t, "!q") {
+			return t
+		}
 	}
 	if vc.defs == nil {
 		vc.defs = map[string]string{}
@@ -106,7 +119,10 @@ func (vc *VC) define(prefix, sort string, t Term) Term {
 	if n, ok := vc.defs[t]; ok {
 		return n
 	}
+	saved := vc.inQuant
+	vc.inQuant = 0
 	n := vc.fresh(prefix, sort)
+	vc.inQuant = saved
 	vc.assumes = append(vc.assumes, tEq(n, t))
 	vc.defs[t] = n
 	return n
